@@ -326,6 +326,12 @@ func checkAcceptedJWS(env *jwsEnvelope, c *signature.EnvelopeContent) {
 			if isText && rt.Same(ks, ek) {
 				found++
 				rt.Assert(rt.Same(at.Value, extVal[i]), "C13.jws.value.unchanged")
+				if numbersModel {
+					if _, isNum := at.Value.(float64); isNum {
+						// "its value unchanged": the float64 handed out must be the number the signer wrote
+						rt.AssertKnown(extNumExact[i], "C13.jws.number.exact", "F12", rt.Not(extNumExact[i]))
+					}
+				}
 				rt.Assert(rt.Iff(at.Critical, inList(crit, ek)), "C13.jws.critical.iff.listed")
 			}
 		}
